@@ -41,6 +41,7 @@ def cells(tier, seed):
                 continue
             out.append({'id': f"observers/get_concentration/{cu.replace('/', '_')}/{solute}", 'fn': 'h_get_concentration',
                         'round': 'lite', 'max_paths': 50, 'params': {'cu': cu, 'solute': solute}})
+    out.append({'id': "observers/after-recipe-remove", 'fn': 'h_after_recipe', 'round': 'lite', 'max_paths': 50, 'params': {}})
     # reported precision of get_concentration in units with a small multiplier: delta rounding model on a concrete,
     # dilute container (only the rounding errors are symbolic -> linear arithmetic)
     for cu in ['mM', 'uM', 'nM', 'ug/L', 'umol/L', 'M']:
@@ -197,6 +198,24 @@ def h_get_concentration(h):
     h.require('get_concentration', h.eq(got * den, num * scale, h.rs(2 * h.ulp * den + 4 * h.ulp * scale * 10**4)),
               region=p['cu'], detail=f"get_concentration({p['solute']}, '{p['cu']}') equals amount/total by definition")
     h.outcome = 'ok'
+
+
+def h_after_recipe(h):
+    """observers answer from the object's own contents whatever happened to equal objects elsewhere (a recipe removing
+    from a copy, a freshly built equal container)"""
+    lib = Lib(h, ['water', 'NaCl'])
+    C, Recipe = h.env.Container, h.env.Recipe
+    a, b = h.real('a', 1, 10**5), h.real('b', 1, 10**3)
+    stock = C('stock', initial_contents=[(lib['water'], f"{a} uL"), (lib['NaCl'], f"{b} mg")])
+    rec = Recipe().uses(stock)
+    rec.remove(stock, lib['NaCl'])
+    res = rec.bake()
+    twin = C('stock', initial_contents=[(lib['water'], f"{a} uL"), (lib['NaCl'], f"{b} mg")])
+    h.outcome = 'ok'
+    for label, c in (('declared', stock), ('twin', twin), ('result', res['stock'])):
+        h.require('get_substances', h.true(c.get_substances() == set(c.contents)), region=label,
+                  detail=f"{label}: get_substances() = {sorted(s.name for s in c.get_substances())}, contents = {sorted(s.name for s in c.contents)}")
+        h.require('has_liquid', h.true(c.has_liquid() == any(s.is_liquid() for s in c.contents)), region=label)
 
 
 def h_conc_precision(h):
